@@ -16,7 +16,7 @@
            that object's history is skipped, the next object is validated from S0 again).  A divergence is NOT a
            violation -- a refactoring may change the call graph and keep every answer -- it says that MemoMC's
            exhaustive result no longer speaks about this code, and the check reports it as such. *)
-EXTENDS Memo, Json, IOUtils, TLC
+EXTENDS Memo, Json, IOUtils, TLC, FiniteSets
 Trace == ndJsonDeserialize(IOEnv.TRACE_FILE)
 VARIABLES s, l, div, bad
 tvars == <<s, l, div, bad>>
@@ -29,8 +29,7 @@ TraceNew == IsEvent("new") /\ s' = S0 /\ l' = l + 1 /\ UNCHANGED <<div, bad>>
 TraceCall ==
   /\ IsEvent("call")
   /\ LET ln == Trace[l] c == <<ln[3], ln[4]>> n == Do(s, c) IN
-     /\ bad' = IF ln[6] /\ ln[7] THEN bad
-               ELSE Append(bad, <<l, IF ln[6] THEN "answer-depends-on-history:type" ELSE "answer-depends-on-history:value">>)
+     /\ UNCHANGED bad
      /\ IF c \in Calls /\ Obs(n) = ln[5]
         THEN s' = n /\ l' = l + 1 /\ UNCHANGED div
         ELSE /\ div' = Append(div, <<l, TableOrder[FirstDiff(Obs(n), ln[5])], Obs(n)[FirstDiff(Obs(n), ln[5])],
@@ -40,9 +39,13 @@ TraceNext == TraceNew \/ TraceCall
 TraceSpec == TraceInit /\ [][TraceNext]_tvars
 Finished == l = Len(Trace) + 1
 (* printed once, in the final state *)
-Report == Finished => /\ \A i \in DOMAIN bad : PrintT(<<"BAD", bad[i][1], bad[i][2]>>)
+(* the VERDICT is read off every recorded call, whether or not the machine could still follow that object: a divergence
+   must never hide an answer *)
+BadLines == {i \in DOMAIN Trace : Trace[i][1] = "call" /\ ~(Trace[i][6] /\ Trace[i][7])}
+Report == Finished => /\ \A i \in BadLines : PrintT(<<"BAD", i, IF Trace[i][6] THEN "answer-depends-on-history:type"
+                                                                   ELSE "answer-depends-on-history:value">>)
                       /\ \A i \in DOMAIN div : PrintT(<<"INFO", "DIV", div[i]>>)
-                      /\ PrintT(<<"DONE", Len(Trace), Len(bad)>>)
+                      /\ PrintT(<<"DONE", Len(Trace), Cardinality(BadLines)>>)
 (* the whole trace was consumed (no line was left unexplained): one state per consumed line, or fewer when a
    divergence skipped the rest of an object *)
 TraceAccepted == TLCGet("stats").diameter >= 1
